@@ -475,7 +475,7 @@ def replayRun (tz : Int) (files : List FileJ) (strat : Nat) (fault : Option Faul
     | none => match badCheck with
       | some b => if b.clause.startsWith "C" then b.clause else ""
       | none => ""
-  let corr := corrErr && (checks.all (·.ok))
+  let corr := corrErr && (checks.all (·.ok)) && !planMismatch
   let clause := if specClause != "" then specClause
     else if !corrErr then s!"BulkUpdate ended with '{implUpdate}', model expects '{expectUpdate}'"
     else match badCheck with | some b => s!"{b.alias_}: {b.clause}" | none => ""
